@@ -114,6 +114,234 @@ def cluster_session_creation(repo: Path):
     return casts, sites
 
 
+# ======================================================================================
+# C17 (wave 2, agent sess): the guards that keep an unauthenticated NodeSession inert
+# ======================================================================================
+def cluster_session_guards(repo: Path):
+    """C17 (wave 2): where the `monitoring` / `!auth.isOk` guards of `Model/Session.lean` live in
+    `ractor_cluster/src/node/node_session.rs` (non-test, non-`verif` part only: the file is cut at the
+    first `#[cfg(feature = "verif")]` item / `#[cfg(test)] mod x {`).
+
+    Returns a dict:
+    * monitorCalls     [(callee, enclosing fn)]  every call of a `monitor` / `monitor_scope` function
+                       (any path; `demonitor*` and definitions excluded)
+    * pingLoopStarts   [(callee, enclosing fn)]  every call of `start_ping_loop*`
+    * afterAuthCalls   [(enclosing fn, [enclosing block headers, outer -> inner])]  every call of
+                       `after_authenticated(` (definition excluded)
+    * authArmPrefix    [statement]  the statements of the block holding the call's `if !p_state ..`,
+                       before that `if` (where `p_state` comes from)
+    * firstGuards      [(fn, condition of the first statement if it is an `if`, its block with string
+                       literals blanked)] for handle_node, handle_control
+    * handleArms       [(variant, arm guard)] of `match message` in `Actor::handle`
+    * networkArms      [(variant, `self.` methods called in the arm)] of `match network_message`
+    * supervisorArms   [(variant, arm guard)] of the `match message` of `handle_supervisor_evt`
+    Sentinels ("?" / "" / []) when something is not found, so that the obligation fails."""
+    full = strip_comments(read(repo, "ractor_cluster/src/node/node_session.rs"))
+    cuts = [m.start() for m in (re.search(r'#\[cfg\(\s*feature\s*=\s*"verif"\s*\)\]', full),
+                                re.search(r"#\[cfg\(\s*test\s*\)\]\s*(?:#\[[^\]]*\]\s*)*(?:pub(?:\([^)]*\))?\s+)?mod\s+\w+\s*\{", full)) if m]
+    src = full[:min(cuts)] if cuts else full
+    # same-length copy with string literal contents blanked: brace / paren matching runs on `scan`
+    scan = re.sub(r'"(?:\\.|[^"\\])*"', lambda m: '"' + " " * (len(m.group(0)) - 2) + '"', src)
+
+    def norm(s):
+        return re.sub(r"\s+", " ", s).strip()
+
+    def close(i):
+        """index of the brace closing the `{` at i (or len)"""
+        d = 0
+        for k in range(i, len(scan)):
+            if scan[k] == "{":
+                d += 1
+            elif scan[k] == "}":
+                d -= 1
+                if d == 0:
+                    return k
+        return len(scan)
+
+    # (name, body start `{`, body end `}`) of every fn with a body
+    spans = []
+    for m in re.finditer(r"\bfn\s+(\w+)", scan):
+        d, j = 0, m.end()
+        while j < len(scan):
+            c = scan[j]
+            if c in "([":
+                d += 1
+            elif c in ")]":
+                d -= 1
+            elif c == ";" and d == 0:
+                j = -1
+                break
+            elif c == "{" and d == 0:
+                break
+            j += 1
+        if 0 <= j < len(scan):
+            spans.append((m.group(1), j, close(j)))
+
+    def enclosing(pos):
+        inner = [s for s in spans if s[1] < pos < s[2]]
+        return max(inner, key=lambda s: s[1])[0] if inner else "?"
+
+    def span_of(name):
+        for s in spans:
+            if s[0] == name:
+                return s
+        return None
+
+    def calls(rx):
+        out = []
+        for m in re.finditer(rx, scan):
+            if re.search(r"\bfn\s+$", scan[:m.start(1)]):
+                continue
+            out.append((m.group(1), enclosing(m.start(1))))
+        return out
+
+    def pattern(p):
+        """match-arm pattern -> (variant, guard)"""
+        d, g = 0, None
+        for k in range(len(p)):
+            if p[k] in "([{":
+                d += 1
+            elif p[k] in ")]}":
+                d -= 1
+            elif d == 0 and re.match(r"\bif\b", p[k:]) and (k == 0 or not (p[k - 1].isalnum() or p[k - 1] == "_")):
+                g = k
+                break
+        pat, guard = (p[:g], p[g + 2:]) if g is not None else (p, "")
+        pat = norm(pat)
+        alts = [re.split(r"[({]", a.strip())[0].strip().split("::")[-1] for a in pat.split("|")] if pat else ["?"]
+        return "|".join(alts), norm(guard)
+
+    def header_start(p):
+        """start of the header text of the block opened by the `{` at p"""
+        d, k = 0, p - 1
+        while k >= 0:
+            c = scan[k]
+            if c in ")]":
+                d += 1
+            elif c in "([":
+                d -= 1
+                if d < 0:
+                    break
+            elif d == 0 and c in ";{},":
+                break
+            k -= 1
+        return k + 1
+
+    def header(p):
+        """normalised header of the block opened by the `{` at p"""
+        h = norm(src[header_start(p):p])
+        if h.endswith("=>"):
+            v, g = pattern(h[:-2])
+            return "arm " + v + (" if " + g if g else "")
+        return h
+
+    def path(pos, lo):
+        """headers of the blocks open at pos, scanning from lo (a `{` that contains pos)"""
+        stack = []
+        for k in range(lo + 1, pos):
+            if scan[k] == "{":
+                stack.append(k)
+            elif scan[k] == "}" and stack:
+                stack.pop()
+        return stack
+
+    def arms(lo, hi):
+        """top-level arms of the match block scan[lo+1:hi] -> [(pattern text, body start, body end)]"""
+        out, k = [], lo + 1
+        while k < hi:
+            d, j = 0, k
+            while j < hi and not (d == 0 and scan.startswith("=>", j)):
+                if scan[j] in "([{":
+                    d += 1
+                elif scan[j] in ")]}":
+                    d -= 1
+                j += 1
+            if j >= hi:
+                break
+            pat = src[k:j]
+            b = j + 2
+            while b < hi and scan[b].isspace():
+                b += 1
+            if b < hi and scan[b] == "{":
+                e = close(b) + 1
+            else:
+                d, e = 0, b
+                while e < hi and not (d == 0 and scan[e] == ","):
+                    if scan[e] in "([{":
+                        d += 1
+                    elif scan[e] in ")]}":
+                        d -= 1
+                    e += 1
+            out.append((pat, b, e))
+            k = e
+            while k < hi and (scan[k].isspace() or scan[k] == ","):
+                k += 1
+        return out
+
+    def match_block(fn, scrutinee):
+        s = span_of(fn)
+        if not s:
+            return None
+        m = re.search(r"\bmatch\s+" + re.escape(scrutinee) + r"\s*\{", scan[s[1]:s[2]])
+        if not m:
+            return None
+        lo = s[1] + m.end() - 1
+        return lo, close(lo)
+
+    res = {}
+    res["monitorCalls"] = calls(r"(?<![\w.])((?:\w+::)?monitor(?:_scope)?)\s*\(") + \
+        [("." + c, f) for c, f in calls(r"\.\s*(monitor(?:_scope)?)\s*\(")]
+    res["pingLoopStarts"] = calls(r"\b(start_ping_loop\w*)\s*\(")
+    # ---- after_authenticated call sites ----
+    sites, prefix = [], []
+    for m in re.finditer(r"\b(after_authenticated)\s*\(", scan):
+        if re.search(r"\bfn\s+$", scan[:m.start()]):
+            continue
+        inner = [s for s in spans if s[1] < m.start() < s[2]]
+        if not inner:
+            sites.append(("?", []))
+            continue
+        f = max(inner, key=lambda s: s[1])
+        stack = path(m.start(), f[1])
+        sites.append((f[0], [header(p) for p in stack]))
+        # the block that holds the outermost plain `if` of the path: its statements before that `if`
+        for n, p in enumerate(stack):
+            h = header(p)
+            if h.startswith("if ") and not h.startswith("if let "):
+                blk = stack[n - 1] if n > 0 else f[1]
+                prefix = [norm(x) for x in src[blk + 1:header_start(p)].split(";") if norm(x)]
+                break
+    res["afterAuthCalls"] = sites
+    res["authArmPrefix"] = prefix
+    # ---- first statement of handle_node / handle_control ----
+    firsts = []
+    for fn in ("handle_node", "handle_control"):
+        s = span_of(fn)
+        cond, blk = "?", "?"
+        if s:
+            m = re.match(r"\s*if\b", scan[s[1] + 1:s[2]])
+            if m:
+                b = scan.index("{", s[1] + 1 + m.end())
+                cond = norm(src[s[1] + 1 + m.end():b])
+                blk = re.sub(r'"\s*"', '""', norm(scan[b + 1:close(b)]))
+                blk = blk if len(blk) <= 160 else blk[:160] + " ..."
+        firsts.append((fn, cond, blk))
+    res["firstGuards"] = firsts
+    # ---- match arms ----
+    def arm_table(blk, what):
+        if not blk:
+            return [("?", "?")]
+        out = []
+        for pat, b, e in arms(*blk):
+            v, g = pattern(pat)
+            out.append((v, g if what == "guard" else ",".join(re.findall(r"\bself\s*\.\s*(\w+)\s*\(", scan[b:e]))))
+        return out or [("?", "?")]
+    res["handleArms"] = arm_table(match_block("handle", "message"), "guard")
+    res["networkArms"] = arm_table(match_block("handle", "network_message"), "calls")
+    res["supervisorArms"] = arm_table(match_block("handle_supervisor_evt", "message"), "guard")
+    return res
+
+
 def start_drain_gates(repo: Path):
     """Round 4 (agent spawn, C07/C08): the gates of the start-vs-drain window.
 
@@ -598,6 +826,30 @@ def main():
     w(f"def clientConnectCasts : List (String × String × String) := [{', '.join(f'({lean_str(a)}, {lean_str(b)}, {lean_str(c)})' for a, b, c in cc_casts)}]")
     w("/-- C17: (arm of NodeServer::handle calling NodeSession::new, cookie argument, is_server argument) -/")
     w(f"def sessionCreationSites : List (String × String × String) := [{', '.join(f'({lean_str(a)}, {lean_str(b)}, {lean_str(c)})' for a, b, c in cc_sites)}]")
+    # ---- C17 (wave 2): the guards that keep an unauthenticated NodeSession inert ----
+    try:
+        sg = cluster_session_guards(repo)
+    except Exception as e:  # sentinels: the obligations fail, the extractor does not
+        print(f"extract: cluster_session_guards failed: {e}", file=sys.stderr)
+        sg = {k: [("?", "?")] for k in ("monitorCalls", "pingLoopStarts", "handleArms", "networkArms", "supervisorArms")}
+        sg.update({"afterAuthCalls": [("?", [])], "authArmPrefix": [], "firstGuards": [("?", "?", "?")]})
+    pairs = lambda xs: "[" + ", ".join(f"({lean_str(a)}, {lean_str(b)})" for a, b in xs) + "]"
+    w("/-- C17: node_session.rs (non-test, non-verif), every call of a `monitor` / `monitor_scope` function: (callee, enclosing fn) -/")
+    w(f"def sessionMonitorCalls : List (String × String) := {pairs(sg['monitorCalls'])}")
+    w("/-- C17: every call of `start_ping_loop*`: (callee, enclosing fn) -/")
+    w(f"def sessionPingLoopStarts : List (String × String) := {pairs(sg['pingLoopStarts'])}")
+    w("/-- C17: every call of `after_authenticated(`: (enclosing fn, headers of the enclosing blocks, outer to inner) -/")
+    w(f"def afterAuthenticatedCalls : List (String × List String) := [{', '.join(f'({lean_str(a)}, {lean_strs(b)})' for a, b in sg['afterAuthCalls'])}]")
+    w("/-- C17: the statements before the `if !p_state ..` that guards the call, in the same block -/")
+    w(f"def afterAuthenticatedGuardPrefix : List String := {lean_strs(sg['authArmPrefix'])}")
+    w("/-- C17: (fn, condition of the `if` that is its first statement, that block with string literals blanked) -/")
+    w(f"def sessionFirstGuards : List (String × String × String) := [{', '.join(f'({lean_str(a)}, {lean_str(b)}, {lean_str(c)})' for a, b, c in sg['firstGuards'])}]")
+    w("/-- C17: arms of `match message` in `NodeSession::handle`: (variant, arm guard) -/")
+    w(f"def sessionHandleArms : List (String × String) := {pairs(sg['handleArms'])}")
+    w("/-- C17: arms of the inner `match network_message`: (variant, `self.` methods called in the arm) -/")
+    w(f"def sessionNetworkArms : List (String × String) := {pairs(sg['networkArms'])}")
+    w("/-- C17: arms of `match message` in `handle_supervisor_evt`: (variant, arm guard) -/")
+    w(f"def sessionSupervisorArms : List (String × String) := {pairs(sg['supervisorArms'])}")
     for line in registry_facts(repo):
         w(line)
     w("")
